@@ -11,9 +11,24 @@
 #include "../fw/ledger.h"
 #include "../fw/sched.h"
 #include <eventpp/eventqueue.h>
+#include <eventpp/hetereventqueue.h>
 
 using namespace verif;
 
+// VERIF_HETER: the same units over HeterEventQueue. Its pending/free lists are plain std::list (no QueueList policy), so
+// what a thread reads from them is not returned through the injected policies; as in the C03 stateful units the hash of the
+// whole shared structure is mixed into the running thread's observation hash at every scheduling point instead.
+#ifdef VERIF_HETER
+struct QPol {
+	using Threading = VThreading;
+};
+using Q = eventpp::HeterEventQueue<int, eventpp::HeterTuple<void(const Tracked &), void(int)>, QPol>;
+static uint64_t heterListHash(const Q::BufferedItemList & l) {
+	uint64_t h = 0x51;
+	for(auto & x : l) h = mix64(h, x.empty() ? 0x1eULL : 0x100ULL + (uint64_t)std::get<0>(x.get<Q::QueuedItem<std::tuple<Tracked> > >().arguments).id);
+	return h;
+}
+#else
 struct QPol {
 	using Threading = VThreading;
 	template <typename T> using QueueList = VList<T>;
@@ -23,10 +38,11 @@ typedef eventpp::internal_::BufferedItem<Q::QueuedEvent> QItem;
 namespace verif {
 template <> struct VListItemHash<QItem> { static uint64_t of(const QItem & x) { return x.empty() ? 0x1eULL : 0x100ULL + (uint64_t)std::get<0>(x.get().arguments).id; } };
 }
+#endif
 
-enum OpKind { O_ENQ, O_DQN_ENQ, O_DQN_ONLY, O_DQN2, O_PROCESS, O_PROCESS_ONE, O_TAKE, O_CLEAR, O_WAIT_PROCESS, O_WAIT_DRAIN, O_WAITFOR_PROCESS, O_EMPTY, O_PROCESS_IF_ODD };
+enum OpKind { O_ENQ, O_DQN_ENQ, O_DQN_ONLY, O_DQN2, O_PROCESS, O_PROCESS_ONE, O_TAKE, O_CLEAR, O_WAIT_PROCESS, O_WAIT_DRAIN, O_WAITFOR_PROCESS, O_EMPTY, O_PROCESS_IF_ODD, O_PROCESS_UNTIL_EVEN };
 static const char * opName(int k) {
-	static const char * n[] = {"enqueue", "{DQN;enqueue}", "{DQN}", "{DQN;{DQN;enqueue}enqueue}", "process", "processOne", "takeEvent", "clearEvents", "wait;process", "wait;drain", "waitFor;process", "emptyQueue", "processIf(odd)"};
+	static const char * n[] = {"enqueue", "{DQN;enqueue}", "{DQN}", "{DQN;{DQN;enqueue}enqueue}", "process", "processOne", "takeEvent", "clearEvents", "wait;process", "wait;drain", "waitFor;process", "emptyQueue", "processIf(odd)", "processUntil(even)"};
 	return n[k];
 }
 static int enqueuesOf(int k) { return k == O_ENQ || k == O_DQN_ENQ ? 1 : (k == O_DQN2 ? 2 : 0); }
@@ -45,7 +61,7 @@ struct Config {
 struct Run {
 	Ctx & ctx; const Config & cfg; Q * q = nullptr;
 	enum EvSt { E_NONE = 0, E_ENQUEUING = 1, E_QUEUED = 2, E_IN_DISPATCH = 3, E_CONSUMED = 4 };
-	struct Ev { int id; int st; bool enqReturned; };
+	struct Ev { int id; int st; bool enqReturned; int producer; int consumer; };
 	std::vector<Ev> evs;
 	std::vector<std::vector<int> > idsOfThread;
 	// per-thread oracle state (part of the global state)
@@ -72,6 +88,13 @@ struct Run {
 	// called after every change of the oracle state: waits in progress accumulate their justification
 	void updateWaits() { bool ob = observable(); if(ob) for(auto & t : ts) if(t.inCall == O_WAIT_PROCESS || t.inCall == O_WAITFOR_PROCESS) t.justified = true; }
 
+	// C06 order clause: events enqueued by one thread and consumed by one thread are consumed in enqueue order.
+	// (A function of the state: producer, consumer and status of every event are part of the key.)
+	void consumedBy(Ev & e, int thread) {
+		e.consumer = thread;
+		for(auto & o : evs) if(o.producer == e.producer && o.id > e.id && o.consumer == thread && (o.st == E_CONSUMED || o.st == E_IN_DISPATCH))
+			ctx.fail("order-violated", fmt("thread %d consumed event %d before event %d although thread %d enqueued them in the opposite order", thread, o.id, e.id, e.producer));
+	}
 	void listener(const Tracked & t) {
 		if(t.id < 1 || t.id > (int)evs.size() || !t.intact()) { ctx.fail("payload-corrupt", fmt("listener received a damaged event (payload id %d)", t.id)); return; }
 		Ev & e = evs[t.id - 1];
@@ -79,6 +102,7 @@ struct Run {
 		if(e.st == E_CONSUMED || e.st == E_IN_DISPATCH) ctx.fail("event-duplicated", fmt("event %d dispatched a second time", t.id));
 		if(e.st == E_NONE) ctx.fail("event-from-nowhere", fmt("event %d dispatched before it was enqueued", t.id));
 		e.st = E_IN_DISPATCH;
+		consumedBy(e, me());
 		bool em = q->emptyQueue();
 		if(em) ctx.fail("empty-inside-listener", fmt("emptyQueue() returned true from inside the listener handling event %d", t.id));
 		e.st = E_CONSUMED;
@@ -93,17 +117,19 @@ struct Run {
 		if(e.st == E_ENQUEUING) e.st = E_QUEUED;
 		e.enqReturned = true;
 	}
+#ifndef VERIF_HETER
 	struct Dqn {   // RAII around DisableQueueNotify that keeps the oracle's view: definitely alive between constructor end and destructor start
 		Run * r; int bit; Q::DisableQueueNotify d;
 		Dqn(Run * r_) : r(r_), bit(r_->dqnCount++), d(r_->q) { r->dqnAlive |= 1u << bit; }
 		~Dqn() { r->dqnAlive &= ~(1u << bit); for(auto & t : r->ts) t.dqnMask &= ~(1u << bit); r->updateWaits(); }
 	};
+#endif
 	struct InCall {
 		Run * r; int thread;
 		InCall(Run * r_, int t, int k) : r(r_), thread(t) {
 			r->ts[t].inCall = k;
-			if(k == O_PROCESS_IF_ODD) for(auto & x : r->ts) if(x.inCall == O_EMPTY) x.putBackSeen = true;
-			if(k == O_EMPTY) { r->ts[t].putBackSeen = false; for(auto & x : r->ts) if(x.inCall == O_PROCESS_IF_ODD) r->ts[t].putBackSeen = true; }
+			if(k == O_PROCESS_IF_ODD || k == O_PROCESS_UNTIL_EVEN) for(auto & x : r->ts) if(x.inCall == O_EMPTY) x.putBackSeen = true;
+			if(k == O_EMPTY) { r->ts[t].putBackSeen = false; for(auto & x : r->ts) if(x.inCall == O_PROCESS_IF_ODD || x.inCall == O_PROCESS_UNTIL_EVEN) r->ts[t].putBackSeen = true; }
 		}
 		~InCall() { r->ts[thread].inCall = -1; }
 	};
@@ -112,15 +138,30 @@ struct Run {
 	void op(int thread, int k) {
 		switch(k) {
 		case O_ENQ: doEnqueue(thread); break;
+#ifndef VERIF_HETER
 		case O_DQN_ENQ: { Dqn d(this); doEnqueue(thread); break; }
 		case O_DQN_ONLY: { Dqn d(this); break; }
 		case O_DQN2: { Dqn a(this); { Dqn b(this); doEnqueue(thread); } doEnqueue(thread); break; }
+#else
+		case O_DQN_ENQ: case O_DQN_ONLY: case O_DQN2: case O_TAKE: break;   // HeterEventQueue has neither DisableQueueNotify nor takeEvent; such configurations are not generated
+#endif
+#ifndef VERIF_HETER
+		case O_PROCESS_UNTIL_EVEN: {
+			InCall ic(this, thread, k); ProcFlight pf(this);
+			bool r = q->processUntil([](const Tracked & t) { return t.id % 2 == 0; });
+			if(ctx.wantLog()) ctx.log(fmt("T%d: %s -> %d", thread, opName(k), (int)r));
+			break;
+		}
+#else
+		case O_PROCESS_UNTIL_EVEN: break;
+#endif
 		case O_PROCESS: case O_PROCESS_ONE: case O_PROCESS_IF_ODD: {
 			InCall ic(this, thread, k); ProcFlight pf(this);
 			bool r = k == O_PROCESS ? q->process() : k == O_PROCESS_ONE ? q->processOne() : q->processIf([](const Tracked & t) { return t.id % 2 == 1; });
 			if(ctx.wantLog()) ctx.log(fmt("T%d: %s -> %d", thread, opName(k), (int)r));
 			break;
 		}
+#ifndef VERIF_HETER
 		case O_TAKE: {
 			InCall ic(this, thread, k);
 			Q::QueuedEvent qe;
@@ -128,11 +169,12 @@ struct Run {
 			if(r) {
 				const Tracked & t = std::get<0>(qe.arguments);
 				if(t.id < 1 || t.id > (int)evs.size() || !t.intact()) ctx.fail("payload-corrupt", "takeEvent handed out a damaged event");
-				else { Ev & e = evs[t.id - 1]; if(e.st == E_CONSUMED || e.st == E_IN_DISPATCH) ctx.fail("event-duplicated", fmt("event %d taken although already consumed", t.id)); if(e.st == E_NONE) ctx.fail("event-from-nowhere", "takeEvent handed out an event that was never enqueued"); e.st = E_CONSUMED; updateWaits(); }
+				else { Ev & e = evs[t.id - 1]; if(e.st == E_CONSUMED || e.st == E_IN_DISPATCH) ctx.fail("event-duplicated", fmt("event %d taken although already consumed", t.id)); if(e.st == E_NONE) ctx.fail("event-from-nowhere", "takeEvent handed out an event that was never enqueued"); e.st = E_CONSUMED; consumedBy(e, thread); updateWaits(); }
 			}
 			if(ctx.wantLog()) ctx.log(fmt("T%d: takeEvent -> %d", thread, (int)r));
 			break;
 		}
+#endif
 		case O_CLEAR: { InCall ic(this, thread, k); q->clearEvents(); if(ctx.wantLog()) ctx.log(fmt("T%d: clearEvents", thread)); break; }
 		case O_WAIT_PROCESS: case O_WAIT_DRAIN: {
 			{
@@ -173,7 +215,7 @@ struct Run {
 			if(ctx.wantLog()) ctx.log(fmt("T%d: emptyQueue() -> %d", thread, (int)r));
 			if(r) {
 				bool takeOrClearInFlight = false, putBackInFlight = ts[thread].putBackSeen;
-				for(auto & t : ts) { if(t.inCall == O_TAKE || t.inCall == O_CLEAR) takeOrClearInFlight = true; if(t.inCall == O_PROCESS_IF_ODD) putBackInFlight = true; }
+				for(auto & t : ts) { if(t.inCall == O_TAKE || t.inCall == O_CLEAR) takeOrClearInFlight = true; if(t.inCall == O_PROCESS_IF_ODD || t.inCall == O_PROCESS_UNTIL_EVEN) putBackInFlight = true; }
 				for(auto & e : evs) if((ts[thread].emptyMask >> (e.id - 1)) & 1u) {
 					if(e.st == E_CONSUMED) continue;
 					if(takeOrClearInFlight && e.st == E_QUEUED) continue;   // may be in the hands of that call (orientation: weaker)
@@ -199,10 +241,22 @@ struct Run {
 		h = mix64(h, (uint64_t)(q->queueEmptyCounter.value + 5)); h = mix64(h, (uint64_t)(q->queueNotifyCounter.value + 5));
 		h = mix64(h, (uint64_t)(q->queueListMutex.owner + 2)); h = mix64(h, (uint64_t)(q->freeListMutex.owner + 2)); h = mix64(h, (uint64_t)(q->listenerMutex.owner + 2));
 		auto it = q->eventCallbackListMap.find(1);
+#ifdef VERIF_HETER
+		if(it != q->eventCallbackListMap.end()) {
+			h = mix64(h, (uint64_t)(it->second.callbackListListMutex.owner + 2));
+			// the per-prototype lists inside always use std::mutex (UnderlyingPoliciesType_ is empty) and live on the heap, outside
+			// the shared range: no scheduling point falls inside their critical sections, so their mutexes are never held here
+		}
+#else
 		if(it != q->eventCallbackListMap.end()) h = mix64(h, (uint64_t)(it->second.mutex.owner + 2));
+#endif
+#ifdef VERIF_HETER
+		h = mix64(h, heterListHash(q->queueList)); h = mix64(h, (uint64_t)q->freeList.size());
+#else
 		h = mix64(h, q->queueList.rawContentHash()); h = mix64(h, (uint64_t)q->freeList.rawSize());
+#endif
 		for(VThread * w : q->queueListConditionVariable.waiters) h = mix64(h, (uint64_t)w->id + 100);
-		for(auto & e : evs) h = mix64(h, (uint64_t)e.st * 2 + (e.enqReturned ? 1 : 0));
+		for(auto & e : evs) h = mix64(h, (uint64_t)e.st * 2 + (e.enqReturned ? 1 : 0) + (uint64_t)e.consumer * 64);
 		for(auto & t : ts) { h = mix64(h, (uint64_t)(t.inCall + 2)); h = mix64(h, t.emptyMask); h = mix64(h, t.dqnMask); h = mix64(h, (uint64_t)t.justified * 2 + 1 + (t.putBackSeen ? 8 : 0)); h = mix64(h, (uint64_t)t.nextEnq); }
 		h = mix64(h, dqnAlive); h = mix64(h, (uint64_t)dqnCount); h = mix64(h, (uint64_t)procInFlight); h = mix64(h, ctx.failed ? 1 : 0);
 		a = h; b = mix64(h ^ 0xa5a5a5a5deadbeefULL, h >> 7);
@@ -212,7 +266,7 @@ struct Run {
 		ledger().reset();
 		idsOfThread.assign(cfg.threads.size() + 1, std::vector<int>());
 		int id = 0;
-		for(size_t t = 0; t < cfg.threads.size(); ++t) for(int k : cfg.threads[t]) for(int i = 0; i < enqueuesOf(k); ++i) { ++id; idsOfThread[t + 1].push_back(id); evs.push_back(Ev{id, E_NONE, false}); }
+		for(size_t t = 0; t < cfg.threads.size(); ++t) for(int k : cfg.threads[t]) for(int i = 0; i < enqueuesOf(k); ++i) { ++id; idsOfThread[t + 1].push_back(id); evs.push_back(Ev{id, E_NONE, false, (int)t + 1, 0}); }
 		ts.assign(cfg.threads.size() + 1, TS{-1, 0, 0, false, false, 0});
 		ledger().onDeath = [this](int cls, int pid, bool moved, int copyDepth) {
 			if(cls == TC_PAYLOAD && !moved && copyDepth == 0 && pid >= 1 && pid <= (int)evs.size()) {
@@ -233,15 +287,18 @@ struct Run {
 			s.addSharedRange(&queue, sizeof queue);
 			queue.appendListener(1, [this](const Tracked & t) { listener(t); });
 			s.stateHash = [this](uint64_t & a, uint64_t & b) { stateHash(a, b); };
+#ifdef VERIF_HETER
+			s.sharedHash = [this]() { HarnessScope hs; return mix64(heterListHash(q->queueList), (uint64_t)q->freeList.size() * 4 + 1); };
+#endif
 			try {
 				for(size_t t = 0; t < cfg.threads.size(); ++t) { int tn = (int)t + 1; s.spawn([this, tn]() { runThread(tn); }); }
 				s.joinAll();
-				s.stateHash = nullptr;      // the sequential epilogue is not explored
+				s.stateHash = nullptr; s.sharedHash = nullptr;      // the sequential epilogue is not explored
 				for(int i = 0; i < 6; ++i) { ProcFlight pf(this); if(!queue.process()) break; }
 				if(!queue.emptyQueue() && !ctx.failed) ctx.fail("not-empty-after-drain", "emptyQueue() is false after all threads finished and process() returned false");
 			}
 			catch(SchedAbort &) { aborted = true; }
-			s.stateHash = nullptr;
+			s.stateHash = nullptr; s.sharedHash = nullptr;
 			s.end();
 			ledger().onDeath = nullptr;
 			if(aborted && !s.pruned) {
@@ -272,6 +329,49 @@ struct Run {
 
 // ------------------------------------------------------------------ configurations
 static Config mk(std::initializer_list<Prog> ts) { Config c; for(auto & t : ts) c.threads.push_back(t); return c; }
+#ifdef VERIF_HETER
+#define FAMPREFIX "/all-interleavings/heter/"
+static std::vector<Config> configs(const std::string & fam, int tier) {
+	std::vector<Config> v;
+	if(fam == "C07") {
+		v.push_back(mk({{O_WAIT_PROCESS}, {O_ENQ}}));
+		v.push_back(mk({{O_WAITFOR_PROCESS}, {O_ENQ}}));
+		v.push_back(mk({{O_WAIT_PROCESS}, {O_ENQ, O_ENQ}}));
+		v.push_back(mk({{O_WAIT_PROCESS}, {O_ENQ}, {O_PROCESS}}));
+		v.push_back(mk({{O_WAIT_PROCESS}, {O_ENQ, O_ENQ, O_PROCESS_IF_ODD}}));
+		if(tier >= 1) {
+			v.push_back(mk({{O_WAIT_PROCESS}, {O_ENQ, O_ENQ}, {O_PROCESS_IF_ODD}}));
+			v.push_back(mk({{O_WAIT_PROCESS}, {O_WAIT_PROCESS}, {O_ENQ, O_ENQ}}));
+			v.push_back(mk({{O_WAIT_DRAIN}, {O_ENQ}, {O_ENQ}}));
+			v.push_back(mk({{O_WAITFOR_PROCESS}, {O_ENQ}, {O_PROCESS_ONE}}));
+		}
+	}
+	else if(fam == "C06") {
+		v.push_back(mk({{O_ENQ, O_ENQ}, {O_PROCESS_ONE}}));
+		v.push_back(mk({{O_ENQ, O_ENQ}, {O_PROCESS_IF_ODD, O_PROCESS}}));
+		v.push_back(mk({{O_ENQ}, {O_PROCESS_ONE}, {O_PROCESS}}));
+		if(tier >= 1) {
+			v.push_back(mk({{O_ENQ, O_ENQ}, {O_PROCESS}, {O_PROCESS_ONE}}));
+			v.push_back(mk({{O_ENQ, O_ENQ}, {O_CLEAR}, {O_PROCESS}}));
+			v.push_back(mk({{O_ENQ, O_ENQ}, {O_PROCESS_IF_ODD}, {O_PROCESS_ONE}}));
+			v.push_back(mk({{O_ENQ}, {O_ENQ}, {O_PROCESS_ONE, O_PROCESS_ONE}}));
+			v.push_back(mk({{O_ENQ, O_ENQ}, {O_ENQ}, {O_PROCESS_IF_ODD}}));
+		}
+	}
+	else {   // C11
+		v.push_back(mk({{O_EMPTY}, {O_ENQ}, {O_PROCESS}}));
+		v.push_back(mk({{O_EMPTY}, {O_ENQ}, {O_PROCESS_ONE}}));
+		if(tier >= 1) {
+			v.push_back(mk({{O_EMPTY}, {O_ENQ, O_ENQ}, {O_PROCESS}}));
+			v.push_back(mk({{O_EMPTY, O_EMPTY}, {O_ENQ}, {O_CLEAR}}));
+			v.push_back(mk({{O_EMPTY}, {O_ENQ, O_ENQ}, {O_PROCESS_IF_ODD}}));
+			v.push_back(mk({{O_ENQ, O_EMPTY}, {O_PROCESS_ONE}}));
+		}
+	}
+	return v;
+}
+#else
+#define FAMPREFIX "/all-interleavings/"
 static std::vector<Config> configs(const std::string & fam, int tier) {
 	std::vector<Config> v;
 	if(fam == "C07") {
@@ -282,7 +382,11 @@ static std::vector<Config> configs(const std::string & fam, int tier) {
 		v.push_back(mk({{O_WAIT_PROCESS}, {O_DQN_ENQ, O_ENQ}}));
 		v.push_back(mk({{O_WAIT_PROCESS}, {O_ENQ}, {O_DQN_ONLY}}));
 		v.push_back(mk({{O_WAIT_PROCESS}, {O_DQN_ENQ}, {O_PROCESS}}));
+		v.push_back(mk({{O_WAIT_PROCESS}, {O_ENQ, O_ENQ, O_PROCESS_IF_ODD}}));
+		v.push_back(mk({{O_WAIT_PROCESS}, {O_ENQ, O_ENQ, O_PROCESS_UNTIL_EVEN}}));
 		if(tier >= 1) {
+			v.push_back(mk({{O_WAIT_PROCESS}, {O_ENQ, O_ENQ}, {O_PROCESS_IF_ODD}}));
+			v.push_back(mk({{O_WAITFOR_PROCESS}, {O_ENQ, O_ENQ}, {O_PROCESS_UNTIL_EVEN}}));
 			v.push_back(mk({{O_WAIT_PROCESS}, {O_DQN_ENQ}, {O_ENQ}}));
 			v.push_back(mk({{O_WAIT_PROCESS}, {O_WAIT_PROCESS}, {O_DQN_ENQ}}));
 			v.push_back(mk({{O_WAIT_PROCESS}, {O_WAIT_PROCESS}, {O_ENQ, O_ENQ}}));
@@ -300,6 +404,9 @@ static std::vector<Config> configs(const std::string & fam, int tier) {
 			v.push_back(mk({{O_ENQ, O_ENQ}, {O_CLEAR}, {O_PROCESS}}));
 			v.push_back(mk({{O_ENQ}, {O_ENQ}, {O_PROCESS_ONE, O_TAKE}}));
 			v.push_back(mk({{O_ENQ, O_ENQ}, {O_PROCESS_IF_ODD}, {O_PROCESS_ONE}}));
+			v.push_back(mk({{O_ENQ, O_ENQ}, {O_ENQ}, {O_PROCESS_IF_ODD}}));
+			v.push_back(mk({{O_ENQ, O_ENQ}, {O_ENQ}, {O_PROCESS_UNTIL_EVEN}}));
+			v.push_back(mk({{O_ENQ, O_ENQ}, {O_PROCESS_UNTIL_EVEN}, {O_TAKE}}));
 		}
 	}
 	else {   // C11
@@ -316,6 +423,7 @@ static std::vector<Config> configs(const std::string & fam, int tier) {
 	}
 	return v;
 }
+#endif
 
 static void addFamily(const std::string & fam) {
 	for(int tierOf = 0; tierOf <= 1; ++tierOf) {
@@ -324,7 +432,7 @@ static void addFamily(const std::string & fam) {
 			bool isQuick = ci < quick.size();
 			if((tierOf == 0) != isQuick) continue;
 			Config cfg = all[ci];
-			Unit u; u.name = fmt("%s/all-interleavings/%02zu %s", fam.c_str(), ci, cfg.name().c_str()); u.minTier = isQuick ? 0 : 1;
+			Unit u; u.name = fmt("%s" FAMPREFIX "%02zu %s", fam.c_str(), ci, cfg.name().c_str()); u.minTier = isQuick ? 0 : 1;
 			u.run = [cfg](Ctx & ctx, UnitReport & rep, int) {
 				std::unordered_set<uint64_t> va, vb;
 				Sched & s = sched();
